@@ -393,6 +393,7 @@ def main(argv):
             "compile-time witnesses: every handle is one (two for unsized) pointer wide with the null niche. One known finding (ThinArc::as_ptr/into_raw "
             "return the block start, not the value address). Not decided: numeric pointer values."
             ' Added later: R-THICK as a premise (what `from_raw(into_raw(x))` shows is read through the same length-reading helper).'
+            " R-REFCNT-PAIR on every RefCnt impl; the union's Clone/Drop arms."
         ),
         rule_text="instances = accessor pairings, NOREF sites, repr facts, width witnesses",
         trusted_base=["rustc MIR def-use and trait resolution", "offset lemma validated by C05", "rustc layout computation for the width witnesses"],
